@@ -96,15 +96,21 @@ PartitionSound(N, p) ==
 (* ---- L2: _apply_node_to_face_aggregation_numpy ------------------------------- *)
 \* T: stored face-node table (PAD = -1 at row ends).  A padding entry would index row[0], which does
 \* not exist: if the transcription ever touched padding TLC would stop with an error.
-AlgFaceAgg(T, order, row, op, D) ==
+\* the gather: for each face the node ids read for it (face_node_conn[face_inds, 0:e] of the last
+\* partition containing it), or <<>> if no partition contains it (np.empty slot never written)
+AlgFaceGather(T, order) ==
     LET N == AlgNodesPerFace(T)
         p == AlgPartition(N, order)
         partOf(f) == { i \in 1..Len(p.sizes) : (f - 1) \in PartFaces(p, i) }
     IN [ f \in 1..Len(T) |->
-           IF partOf(f) = {} THEN << 0, 0 >>                      \* np.empty slot never written
-           ELSE LET i == MaxOf(partOf(f))                          \* the last write wins
-                    e == p.sizes[i]
-                IN Reduce(op, [ j \in 1..e |-> row[T[f][j] + 1] ], D) ]
+           IF partOf(f) = {} THEN << >>
+           ELSE LET e == p.sizes[MaxOf(partOf(f))]                 \* the last write wins
+                IN [ j \in 1..e |-> T[f][j] ] ]
+\* the reduction along the last axis of data[..., face_nodes_par]
+AlgFaceAggFrom(g, row, op, D) ==
+    [ f \in 1..Len(g) |-> IF g[f] = << >> THEN << 0, 0 >>
+                          ELSE Reduce(op, [ j \in 1..Len(g[f]) |-> row[g[f][j] + 1] ], D) ]
+AlgFaceAgg(T, order, row, op, D) == AlgFaceAggFrom(AlgFaceGather(T, order), row, op, D)
 
 \* _apply_node_to_edge_aggregation_numpy: one gather with the whole edge table
 AlgEdgeAgg(E, row, op, D) == [ k \in 1..Len(E) |-> Reduce(op, << row[E[k][1] + 1], row[E[k][2] + 1] >>, D) ]
